@@ -100,6 +100,9 @@ struct World<'a> {
     faults_in_train: u32,
     rejected_after_take: u32,
     viol: Option<Violation>,
+    /// fault-aware clauses of C03 ("Hence ..."): frag ids of trains that suffered a fault the property says is
+    /// always detected (no completion allowed), with the site describing the fault
+    no_delivery: BTreeMap<u8, (&'static str, String)>,
     /// ops executed so far (for reduced programs)
     prefix: Vec<Op>,
     cfg: Op,
@@ -107,6 +110,69 @@ struct World<'a> {
 
 fn is_listed_rejection(e: &str) -> bool {
     matches!(e, "Crc" | "TotalLength" | "SizePduBuffer" | "Mem.UndefinedId" | "Mem.Underflow" | "UnknownMandatoryHeader" | "NoLabelSaved" | "LabelBroadcastSaved" | "LabelReUseSaved" | "InvalidLabel" | "GseLength" | "SizeBuffer" | "Mem.Overflow")
+}
+
+/// Classify a faulted packet against its original: a burst of <= 32 bits confined to the CRC-protected bytes
+/// (everything from the total length / payload on: byte index >= 3) of a fragment, or the truncation of a
+/// payload-carrying fragment. Returns (clause, site, frag id) when the property says "always detected".
+fn always_detected_fault(orig: &[u8], got: &[u8]) -> Option<(&'static str, String, u8)> {
+    let (k, _, gl) = wire::header(orig)?;
+    if k == Kind::Complete || orig.len() != gl + 2 || orig.len() < 4 {
+        return None;
+    }
+    let fid = orig[2];
+    if got.len() < orig.len() {
+        // truncation of a payload-carrying fragment
+        if orig[..got.len()] == got[..] {
+            let carries = match k {
+                Kind::Inter => gl > 1,
+                Kind::End => gl > 5,
+                _ => true,
+            };
+            if carries {
+                return Some(("C03.truncation_not_detected", k.name().to_string(), fid));
+            }
+        }
+        return None;
+    }
+    if got.len() != orig.len() {
+        return None;
+    }
+    let mut first: Option<usize> = None;
+    let mut last = 0usize;
+    for i in 0..orig.len() * 8 {
+        if (orig[i / 8] ^ got[i / 8]) & (0x80 >> (i % 8)) != 0 {
+            if first.is_none() {
+                first = Some(i);
+            }
+            last = i;
+        }
+    }
+    let first = first?;
+    if last - first + 1 > 32 || first / 8 < 3 {
+        return None;
+    }
+    // which field does the burst start in
+    let field = match k {
+        Kind::First => {
+            let b = first / 8;
+            let ll = wire::lt_len((orig[0] >> 4) & 3);
+            if b < 5 {
+                "total_len"
+            } else if b < 7 {
+                "ptype"
+            } else if b < 7 + ll {
+                "label"
+            } else {
+                "payload"
+            }
+        }
+        Kind::End if first / 8 >= orig.len() - 4 => "crc",
+        _ => "payload",
+    };
+    // did the burst turn the type field of a first fragment into an extension id (the parse shifts)?
+    let reinterpret = k == Kind::First && orig.len() >= 7 && u16::from_be_bytes([orig[5], orig[6]]) >= 0x600 && u16::from_be_bytes([got[5], got[6]]) < 0x600;
+    Some(("C03.burst_in_protected_bytes_not_detected", format!("{}:{}{}", k.name(), field, if reinterpret { ":type_field_becomes_extension_id" } else { "" }), fid))
 }
 
 impl<'a> World<'a> {
@@ -400,11 +466,20 @@ impl<'a> World<'a> {
                 st.inc("probe.reassembly_completed");
                 let p = parsed.as_ref().unwrap();
                 let fid = p.frag_id.unwrap();
+                if let Some((clause, site)) = self.no_delivery.get(&fid).cloned() {
+                    let v = Violation::new("C03", clause, site.clone(), format!("a PDU of {} bytes (protocol type {:#06x}) was delivered on frag id {} although its train suffered a fault the property calls always detected ({})", md.pdu_len(), md.protocol_type(), fid, site));
+                    if self.report(st, v) {
+                        return (true, consumed);
+                    }
+                }
                 let trailer = p.crc.unwrap();
                 let cr = crcref();
                 let mut ok = false;
                 let mut why = String::from("no first fragment of this frag id was received");
-                let cands: Vec<Train> = [self.refrx.recv.get(&fid), self.refrx.acc.get(&fid)].into_iter().flatten().cloned().collect();
+                // "the most recent first fragment of that fragment id": the latest one *received*, whether or not the
+                // receiver accepted it (a rejected first fragment supersedes the older reassembly too; an earlier
+                // revision accepted the latest *accepted* one as well, see DESIGN 8.3 finding 17)
+                let cands: Vec<Train> = [self.refrx.recv.get(&fid)].into_iter().flatten().cloned().collect();
                 for t in &cands {
                     let len_ok = t.data.len() + 2 + t.written_label.len() == t.total_len as usize;
                     let crc = cr.gse(t.total_len, t.ptype, &t.written_label, &t.data);
@@ -867,8 +942,18 @@ impl Scenario for RxSim {
                 let first_feed = p.ops.iter().position(|o| o.name == "feed").unwrap_or(0);
                 let mut others_before: Vec<Op> = p.ops[..first_feed].to_vec();
                 let others_after: Vec<Op> = p.ops.iter().skip(first_feed).filter(|o| o.name != "feed").cloned().collect();
-                for m in mutated {
-                    others_before.push(Op::new("feed").h("hex", m).u("f", fk));
+                if (fk == 4 || fk == 5 || fk == 6 || fk == 7) && mutated.len() == pkts.len() {
+                    for (m, o) in mutated.into_iter().zip(pkts.iter()) {
+                        if m != *o {
+                            others_before.push(Op::new("feed").h("hex", m).u("f", fk).h("orig", o.clone()));
+                        } else {
+                            others_before.push(Op::new("feed").h("hex", m));
+                        }
+                    }
+                } else {
+                    for m in mutated {
+                        others_before.push(Op::new("feed").h("hex", m).u("f", fk));
+                    }
                 }
                 others_before.extend(others_after);
                 prog_ops = others_before;
@@ -880,7 +965,7 @@ impl Scenario for RxSim {
         let nbuf = (p.cfg.get_u("nbuf") as usize).min(slots + 2).min(12);
         let table = dec_table(p.cfg.get_h("table"));
         let rx = RxNode::new(slots, maxpdu, table.clone(), false);
-        let mut w = World { target, rx, refrx: RefRx::default(), table, allowed: None, bufsize, log: H64::new(), decaps: 0, completed: 0, faults_in_train: 0, rejected_after_take: 0, viol: None, prefix: vec![], cfg: p.cfg.clone() };
+        let mut w = World { target, rx, refrx: RefRx::default(), table, allowed: None, bufsize, log: H64::new(), decaps: 0, completed: 0, faults_in_train: 0, rejected_after_take: 0, viol: None, no_delivery: BTreeMap::new(), prefix: vec![], cfg: p.cfg.clone() };
         if target == "C08" {
             w.rx.led.borrow_mut().keep_trace = false;
         }
@@ -909,6 +994,17 @@ impl Scenario for RxSim {
                             if (k == Kind::Complete || k == Kind::First) && lt == LT_REUSE {
                                 reuse_met_state = true;
                             }
+                        }
+                    }
+                    if op.has("orig") {
+                        if let Some((clause, site, fid)) = always_detected_fault(op.get_h("orig"), bytes) {
+                            st.inc("probe.always_detected_fault_applied");
+                            w.no_delivery.insert(fid, (clause, site));
+                        }
+                    } else if let Some((Kind::First, _, gl)) = wire::header(bytes) {
+                        // an unfaulted first fragment starts a new train on its id: earlier claims end
+                        if bytes.len() >= gl + 2 && bytes.len() > 2 {
+                            w.no_delivery.remove(&bytes[2]);
                         }
                     }
                     let (stop, _) = w.feed(st, bytes, op.get_u("f"), Some(op.clone()));
@@ -1457,7 +1553,25 @@ pub mod gen {
         }
     }
 
+    /// The one known way past the burst clause (DESIGN 8.3, known finding K1): a burst over total length and
+    /// protocol type that turns the type field into an optional extension id, on a PDU and label chosen so that the
+    /// CRC over the re-interpreted fields collides (the CRC covers interpreted fields, not the bytes received).
+    fn directed_burst_reinterpretation() -> Program {
+        let mut pdu: Vec<u8> = (0..100u8).collect();
+        pdu[0] = 0x41;
+        pdu[1] = 0xb6;
+        let t = fragment(&pdu, 9, 0x0800, &Lab::L6(*b"dRng!:"), &[], false, 3, Some(&[37, 84]));
+        let mut f = t[0].clone();
+        f[4] ^= 0x06;
+        f[5] ^= 0x09;
+        let ops = vec![Op::new("feed").h("hex", f).u("f", 5).h("orig", t[0].clone()), feed(t[1].clone(), 0), feed(t[2].clone(), 0)];
+        Program { scenario: "rxsim", cfg: cfg(2, 128, 128, 3, &ExtTable::default()), ops }
+    }
+
     fn gen_c03(idx: u64, rng: &mut Rng, tier: Tier) -> Program {
+        if idx == 1 {
+            return directed_burst_reinterpretation();
+        }
         let mut table = std_table();
         // every 300th run (quick) / 150th (thorough): complete single-fault neighbourhood of a small base train
         let every = if tier == Tier::Quick { 300 } else { 150 };
